@@ -129,16 +129,32 @@ def gen_termlist(rng):
 
 
 def _eval(src, env):
-    g = {'__builtins__': {}, 'max': max, 'min': min, 'abs': abs}
-    e = dict(env)
-    for n in list(e):
-        e[n] = _N(e[n])
-    return eval(src, g, e)
+    """Exact value (a Fraction) of an expression over +, -, *, /, **, max, min, abs, names and decimal literals: neither the
+    expected value nor the value of the right-hand side the library renders suffers from float cancellation."""
+    import io as _io
+    import tokenize as _tk
+    from fractions import Fraction as _Fr
+    toks = []
+    for t in _tk.generate_tokens(_io.StringIO(src).readline):
+        if t.type == _tk.NUMBER:
+            toks.append((_tk.NAME, '_F'))
+            toks.append((_tk.OP, '('))
+            toks.append((_tk.STRING, repr(t.string)))
+            toks.append((_tk.OP, ')'))
+        else:
+            toks.append((t.type, t.string))
+    code = _tk.untokenize(toks)
+    g = {'__builtins__': {}, 'max': max, 'min': min, 'abs': abs, '_F': lambda txt: _Fr(txt.rstrip('.') if txt.endswith('.') else txt)}
+    e = {n: _Q(_Fr(v)) for n, v in env.items()}
+    return _Fr(eval(code.strip(), g, e))
 
 
-class _N(float):
+from fractions import Fraction as _Fraction
+
+
+class _Q(_Fraction):
     def __call__(self, *a):
-        return _N(float(self) * 0.5)
+        return _Q(_Fraction(self) / 2)
 
 
 class C12(object):
@@ -194,7 +210,7 @@ class C12(object):
         exact = [True, '/' not in lead_src, '/' not in lead_src]
         self.judge(eq, h, expected, envs, exact, rec, -1)
         eq2 = Equation('v', 'desc')
-        expected2 = [0.0 for _ in envs]
+        expected2 = [_Fraction(0) for _ in envs]
         exact2 = [True, True, True]
         objpool = {}
         flags = h.get('flags') or [{'as_obj': False, 'eq2': False}] * len(h['terms'])
@@ -220,7 +236,7 @@ class C12(object):
                 return
             rec.count('addterm.calls')
             for i, e in enumerate(envs):
-                tv = sign * _eval(core, e)
+                tv = _Fraction(sign) * _eval(core, e)
                 expected[i] = expected[i] + tv
                 if '/' in core and i > 0:
                     exact[i] = False
@@ -282,7 +298,7 @@ class C12(object):
                 return
             rec.count('sector.addterm.calls')
             for i, e in enumerate(envs):
-                expected[i] = expected[i] + sign * _eval(core, e)
+                expected[i] = expected[i] + _Fraction(sign) * _eval(core, e)
                 if '/' in core and i > 0:
                     exact[i] = False
             if not self.judge(sec.EquationBlock['v'], dict(h, resets=resets, terms_used=[list(t) for t in terms]), expected, envs, exact, rec, j,
@@ -309,12 +325,13 @@ class C12(object):
                 rec.violate('rhs_unevaluable', {'history': h, 'after_term': j, 'rhs': rhs, 'err': repr(ex)})
                 return False
             exp = expected[i]
-            ok = (got == exp) if exact[i] else abs(got - exp) <= 1e-9 * max(1.0, abs(exp), abs(got))
+            # both sides are exact rationals; the only slack is for float arithmetic the library may do on coefficients
+            ok = (got == exp) or abs(got - exp) <= _Fraction(1, 10 ** 12) * max(1, abs(exp), abs(got))
             if not ok:
                 lead = h['lead']
                 mech = 'value'
                 rec.violate('value_mismatch', {'equation': which, 'history': h, 'after_term': j, 'rhs': rhs, 'valuation': e,
-                                               'expected': exp, 'got': got}, mechanism=mech)
+                                               'expected': float(exp), 'got': float(got)}, mechanism=mech)
                 return False
         rec.count('addterm.post_evaluated')
         return True
@@ -333,17 +350,17 @@ class C12(object):
             rec.violate('termlist_argument_mutated', {'terms': saved, 'after': arg, 'result': out})
         for _ in range(2):
             e = pow2_env(valuation(rng), rng)
-            exp = 0.0
+            exp = _Fraction(0)
             for s in saved:
                 exp += _eval(s.strip(), e)
             try:
-                got = _eval(out, e) if out.strip() else 0.0
+                got = _eval(out, e) if out.strip() else _Fraction(0)
             except Exception as ex:
                 rec.violate('termlist_unevaluable', {'terms': saved, 'result': out, 'err': repr(ex)})
                 return
             if abs(got - exp) > 1e-9 * max(1.0, abs(exp)):
                 rec.violate('termlist_value', {'terms': saved, 'result': out, 'valuation': e,
-                                               'expected': exp, 'got': got})
+                                               'expected': float(exp), 'got': float(got)})
                 return
 
     def run_case(self, case):
